@@ -24,6 +24,19 @@ tag), never the objects.  Oracle:
   at DROP time additionally show that dirty objects stayed alive and clean ones died
   (these feed the ``require`` counters).
 
+Operations that touch a modified object's state *without a new change event* are part of
+the histories: ``session.expire(obj, [other attrs])``, ``session.refresh(obj, [other
+attrs])`` and ORM-enabled ``update()`` with session synchronisation (all under
+``no_autoflush``), and the post-flush expiry of a server-generated column (``sv``,
+``server_onupdate=FetchedValue()``).  Change events that *raise midway* are part of them
+too: sessions are created with ``autobegin=False`` at random and a ``commit_set`` step
+commits and then sets an attribute outside any transaction (InvalidRequestError from
+inside the change event; the intended model is then left unchanged, the program calls
+``begin()`` and goes on), and a ``set`` listener rejects values starting with "bad".
+Additional oracles: after every DROP + gc no state in ``identity_map._modified`` has a
+dead object; an AssertionError (or any exception) that only appears with reference drops
+is a violation (``exception-only-with-reference-drops``).
+
 Guards: under delete-orphan a pending child is never re-parented (it is expunged when it
 leaves the old parent and, with cascade_backrefs=False, not re-added - documented); a
 parent that received a new / re-parented child in the program is not deleted; tags of rows deleted in the program are never used again; a child removed from a
@@ -51,7 +64,10 @@ META = {
     "soft_s": {"quick": 50, "thorough": 800},
     "exhaustive": {"quick": False, "thorough": False},
     "require": ["dirty_refs_dropped", "dirty_alive_after_gc", "clean_released", "db_compares", "idmap_empty_checks",
-                "detached_modified_added", "pending_dropped", "deleted_dropped"],
+                "detached_modified_added", "pending_dropped", "deleted_dropped",
+                "partial_expire_on_dirty", "partial_refresh_on_dirty", "orm_update_sync_on_dirty", "touched_dirty_then_dropped",
+                "change_event_raised_no_txn", "change_event_raised_listener", "raised_then_dropped", "modified_set_checks",
+                "autobegin_off_programs", "server_generated_expired"],
     "assumptions": ["gc.collect() collects every unreachable object (no resurrecting finalizers in the mapped classes)"],
 }
 
@@ -68,6 +84,10 @@ class App:
         self.refs = {}
         # intended model (plain data)
         self.p = {}      # n -> name
+        self.note = {}   # n -> note (written by ORM-enabled UPDATE only)
+        self.touched = set()   # dirty tags that were partially expired / refreshed / synchronised
+        self.raised = set()    # tags whose change event raised midway
+        self.raised_ever = set()
         self.c = {}      # k -> [v, parent n | None]
         self.dirty = set()     # tags with unflushed changes / pending / marked deleted
         self.pending = set()
@@ -215,27 +235,93 @@ class App:
         self.p[n] = value
         self.dirty.add(("p", n))
 
+    # ---- steps that touch the state without a new change event ---------
+    def _touch(self, kind, tag, counter):
+        if (kind, tag) in self.dirty:
+            self.ctx.count(counter)
+            self.touched.add((kind, tag))
+
+    def do_expire_attrs(self, kind, tag, attrs):
+        self.s.expire(self.fetch(kind, tag), list(attrs))
+        self._touch(kind, tag, "partial_expire_on_dirty")
+
+    def do_refresh_attrs(self, kind, tag, attrs):
+        o = self.fetch(kind, tag)
+        with self.s.no_autoflush:
+            self.s.refresh(o, list(attrs))
+        self._touch(kind, tag, "partial_refresh_on_dirty")
+
+    def do_orm_update(self, n, value, sync):
+        """ORM-enabled UPDATE of ``note`` with session synchronisation, autoflush off"""
+        from sqlalchemy import update
+
+        P = self.P
+        with self.s.no_autoflush:
+            self.s.execute(update(P).where(P.n == n).values(note=value), execution_options={"synchronize_session": sync})
+        self.note[n] = value
+        if sync:
+            self._touch("p", n, "orm_update_sync_on_dirty")
+
+    # ---- change events that raise midway ---------------------------------
+    def do_commit_set(self, n, value):
+        """commit, then set an attribute while no transaction is in progress"""
+        from sqlalchemy import exc
+
+        o = self.fetch("p", n)
+        self.s.commit()
+        self.after_flush()
+        self.compare("commit", self.rig.committed)
+        try:
+            o.name = value
+        except exc.InvalidRequestError:
+            if self.s.autobegin:
+                raise
+            self.ctx.count("change_event_raised_no_txn")
+            self.raised.add(("p", n))
+            self.raised_ever.add(n)
+        else:
+            self.p[n] = value
+            self.dirty.add(("p", n))
+        if not self.s.in_transaction():
+            self.s.begin()
+
+    def do_bad_set(self, n):
+        o = self.fetch("p", n)
+        try:
+            o.name = "bad value"
+        except ValueError:
+            self.ctx.count("change_event_raised_listener")
+            self.raised.add(("p", n))
+        else:
+            raise AssertionError("the rejecting 'set' listener did not fire")
+
     def do_begin_nested(self):
         self.nested = self.s.begin_nested()      # flushes
         self.after_flush()
-        self.saved = ({k: v for k, v in self.p.items()}, {k: list(v) for k, v in self.c.items()})
+        self.saved = ({k: v for k, v in self.p.items()}, {k: list(v) for k, v in self.c.items()}, dict(self.note))
 
     def do_rollback_nested(self):
         self.nested.rollback()
         self.nested = None
-        self.p, self.c = self.saved
+        self.p, self.c, self.note = self.saved
         self.saved = None
+        self.touched.clear()
         self.dirty.clear()
         self.pending.clear()
         self.marked_deleted.clear()
         self.refs.clear()   # objects created inside the savepoint are transient again: forget them
 
     def do_flush(self):
-        self.s.flush()
+        _STATS["in_flush"] = True
+        try:
+            self.s.flush()
+        finally:
+            _STATS["in_flush"] = False
         self.after_flush()
         self.compare("flush", self.rig.truth)
 
     def after_flush(self):
+        self.touched.clear()
         self.dirty.clear()
         self.pending.clear()
         self.marked_deleted.clear()
@@ -248,10 +334,14 @@ class App:
             self.lost_dirty += nd
             self.ctx.count("pending_dropped", len(held & self.pending))
             self.ctx.count("deleted_dropped", len(held & self.marked_deleted))
+        self.ctx.count("touched_dirty_then_dropped", len(held & self.touched & self.dirty))
+        self.ctx.count("raised_then_dropped", len(held & self.raised))
+        self.raised -= held
         for key in self.refs:
             self.probes.append((weakref.ref(self.refs[key]), key in self.dirty))
         self.refs.clear()
         gc.collect()
+        self.modified_set_alive("DROP")
         for wr, was_dirty in self.probes:
             alive = wr() is not None
             if was_dirty and alive:
@@ -263,6 +353,17 @@ class App:
             self.idmap_empty("DROP after full flush")
 
     # ---- oracles ----------------------------------------------------------
+    def modified_set_alive(self, where):
+        """every state the session tracks as modified still has its object (the strong reference
+        that accompanies an entry of identity_map._modified)"""
+        self.ctx.count("modified_set_checks")
+        dead = [st for st in list(self.s.identity_map._modified) if st.obj() is None]
+        if dead:
+            self.ctx.violation("dead-object-in-modified-set",
+                               f"{len(dead)} state(s) in identity_map._modified whose object was garbage collected after {where}",
+                               {"program": self.program, "placement": self.placement, "variant": self.variant,
+                                "autoflush": self.s.autoflush, "autobegin": self.s.autobegin})
+
     def idmap_empty(self, where):
         self.ctx.count("idmap_empty_checks")
         n = len(self.s.identity_map)
@@ -278,9 +379,14 @@ class App:
         got_p = {n: name for n, name in reader("SELECT n, name FROM p")}
         got_c = {k: [v, pn] for k, v, pn in reader(
             "SELECT c.k, c.v, p.n FROM c LEFT JOIN p ON p.id = c.p_id")}
-        if got_p == self.p and got_c == self.c:
+        got_note = {n: note for n, note in reader("SELECT n, note FROM p") if note is not None}
+        want_note = {n: v for n, v in self.note.items() if n in self.p}
+        if got_p == self.p and got_c == self.c and got_note == want_note:
             return True
         probs = []
+        for n in set(got_note) | set(want_note):
+            if got_note.get(n) != want_note.get(n):
+                probs.append(("p-note", f"P n={n}: note db {got_note.get(n)!r} intended {want_note.get(n)!r}"))
         for n in set(got_p) | set(self.p):
             if got_p.get(n, "<no row>") != self.p.get(n, "<no row>"):
                 kind = "insert" if n not in got_p else "delete" if n not in self.p else "update"
@@ -298,12 +404,51 @@ class App:
                     kind = "reparent"
                 probs.append((f"c-{kind}", f"C k={k}: db {g!r} intended {w!r}"))
         kinds = sorted({k for k, _ in probs})
-        self.ctx.violation("change-missing-at-" + where + ":" + "+".join(kinds),
+        wrong_p = {n for n in set(got_p) | set(self.p) if got_p.get(n, "<no row>") != self.p.get(n, "<no row>")}
+        if kinds == ["p-update"] and wrong_p <= self.raised_ever:
+            # the only rows that differ are rows whose attribute set *raised* (no transaction, autobegin
+            # disabled): the failed change event left residue (committed_state entry, modified flag)
+            # that the next flush turned into an UPDATE
+            mech = "raised-change-event-still-flushed"
+        else:
+            mech = "change-missing-at-" + where + ":" + "+".join(kinds)
+        self.ctx.violation(mech,
                            "; ".join(m for _, m in probs[:4]),
                            {"program": self.program, "placement": self.placement, "variant": self.variant,
                             "autoflush": self.s.autoflush, "db_p": got_p, "db_c": got_c,
                             "intended_p": self.p, "intended_c": self.c})
         return False
+
+
+_STATS = {"in_flush": False, "sv_expired_in_flush": 0}
+
+
+def zoo_pc_ext(sa, orm, reg, cascade):
+    """zoo_pc plus: P.note (written by ORM-enabled UPDATE only), P.sv (server-generated on UPDATE: expired
+    by the post-flush fetch logic), and a 'set' listener on P.name that rejects values starting with "bad"."""
+    from vf.gen import ormrig_gj as R
+
+    cls = R.zoo_pc(sa, orm, reg, cascade=cascade)
+    P = cls["P"]
+    note = sa.Column("note", sa.String)
+    sv = sa.Column("sv", sa.Integer, server_default="0", server_onupdate=sa.FetchedValue())
+    P.__table__.append_column(note)
+    P.__table__.append_column(sv)
+    P.__mapper__.add_property("note", note)
+    P.__mapper__.add_property("sv", sv)
+
+    def reject_bad(target, value, oldvalue, initiator):
+        if isinstance(value, str) and value.startswith("bad"):
+            raise ValueError("rejected by the 'set' listener")
+
+    sa.event.listen(P.name, "set", reject_bad)
+
+    def on_expire(target, attrs):
+        if attrs and "sv" in attrs and _STATS["in_flush"]:
+            _STATS["sv_expired_in_flush"] += 1
+
+    sa.event.listen(P, "expire", on_expire)
+    return cls
 
 
 def seed(rig):
@@ -331,7 +476,11 @@ def gen_program(rng, length, variant):
     while len(prog) < length and tries < 200:
         tries += 1
         kind = rng.choice(["load", "set_name", "set_name", "set_v", "set_v", "new_p", "new_c", "new_c", "move_c",
-                           "remove_c", "delete", "detached_mod", "merge_p", "flush", "begin_nested", "rollback_nested"])
+                           "remove_c", "delete", "detached_mod", "merge_p", "flush", "begin_nested", "rollback_nested",
+                           "expire_attrs", "refresh_attrs", "orm_update", "commit_set", "bad_set", "touch_last"])
+        # rows that were persistent when the program started and are still there
+        live_p = [n for n in (1, 2, 3) if n in p]
+        live_c = [k for k in ("k1", "k2", "k3", "k4") if k in c]
         if kind == "load":
             if rng.random() < 0.5 and p:
                 prog.append(("load", "p", rng.choice(sorted(p))))
@@ -401,7 +550,8 @@ def gen_program(rng, length, variant):
                 prog.append(("delete", "c", k))
         elif kind == "detached_mod" and nested != 1:
             # only rows that exist committed and are untouched so far in this program
-            touched = {s[1] for s in prog if s[0] in ("set_name", "new_p", "merge_p")} | \
+            touched = {s[1] for s in prog if s[0] in ("set_name", "new_p", "merge_p", "orm_update", "commit_set", "bad_set")} | \
+                      {s[2] for s in prog if s[0] in ("expire_attrs", "refresh_attrs")} | \
                       {s[2] for s in prog if s[0] in ("load", "delete", "detached_mod")} | \
                       {s[2] for s in prog if s[0] == "move_c"} | {s[3] for s in prog if s[0] == "new_c"}
             cand = [n for n in (1, 2, 3) if n in p and n not in touched]
@@ -411,6 +561,32 @@ def gen_program(rng, length, variant):
             cand = [n for n in (1, 2, 3) if n in p]
             if cand:
                 prog.append(("merge_p", rng.choice(cand), u("mname")))
+        elif kind in ("expire_attrs", "refresh_attrs") and (live_p or live_c):
+            # only attributes the program never sets through the object (expiring a modified attribute
+            # discards that change by design)
+            if live_p and (rng.random() < 0.7 or not live_c):
+                attrs = rng.sample(["n", "note", "sv"], rng.randint(1, 3))
+                prog.append((kind, "p", rng.choice(live_p), attrs))
+            else:
+                prog.append((kind, "c", rng.choice(live_c), ["k"]))
+        elif kind == "orm_update" and live_p:
+            prog.append(("orm_update", rng.choice(live_p), u("note"), rng.choice(["evaluate", "fetch", "evaluate", False])))
+        elif kind == "touch_last":
+            # the operation right after a modification of the same persistent object
+            last = prog[-1] if prog else None
+            if last and last[0] == "set_name" and last[1] in live_p:
+                how = rng.choice(["expire_attrs", "refresh_attrs", "orm_update"])
+                if how == "orm_update":
+                    prog.append(("orm_update", last[1], u("note"), rng.choice(["evaluate", "fetch"])))
+                else:
+                    prog.append((how, "p", last[1], rng.sample(["n", "note", "sv"], rng.randint(1, 2))))
+            elif last and last[0] == "set_v" and last[1] in live_c:
+                prog.append((rng.choice(["expire_attrs", "refresh_attrs"]), "c", last[1], ["k"]))
+        elif kind == "commit_set" and nested == 0 and live_p and not any(s[0] == "commit_set" for s in prog):
+            nested = 2     # no SAVEPOINT in a program that commits in the middle
+            prog.append(("commit_set", rng.choice(live_p), u("name")))
+        elif kind == "bad_set" and live_p:
+            prog.append(("bad_set", rng.choice(live_p)))
         elif kind == "flush":
             prog.append(("flush",))
         elif kind == "begin_nested" and nested == 0 and len(prog) < length - 2:
@@ -432,9 +608,13 @@ def placements(prog, rng):
     yield "some", {i for i in range(n) if rng.random() < 0.4}
 
 
-def run_program(ctx, rig, prog, placement, where, variant, autoflush, expire_on_commit):
+def run_program(ctx, rig, prog, placement, where, variant, autoflush, expire_on_commit, autobegin=True):
     rig.wipe()
-    s = rig.session(autoflush=autoflush, expire_on_commit=expire_on_commit)
+    s = rig.session(autoflush=autoflush, expire_on_commit=expire_on_commit, autobegin=autobegin)
+    if not autobegin:
+        s.begin()
+        if placement == "none":
+            ctx.count("autobegin_off_programs")
     app = App(ctx, rig, s, variant)
     app.p, app.c = seed(rig)
     app.program, app.placement = [list(x) for x in prog], placement
@@ -460,7 +640,7 @@ def run_program(ctx, rig, prog, placement, where, variant, autoflush, expire_on_
             site = next((f"{f.name}" for f in reversed(tb) if "/sqlalchemy/" in f.filename), "?")
             ctx.violation(f"exception-only-with-reference-drops:{type(e).__name__}",
                           f"{type(e).__name__}: {str(e)[:160]} (in {site}); the control run without drops succeeded",
-                          {"program": app.program, "placement": placement, "variant": variant, "autoflush": autoflush})
+                          {"program": app.program, "placement": placement, "variant": variant, "autoflush": autoflush, "autobegin": autobegin})
             try:
                 s.rollback()
             except Exception:
@@ -538,7 +718,7 @@ def run(ctx):
     }
     sampled = 0
     for variant, cascade in variants.items():
-        rig = R.Rig(ctx, [lambda sa, orm, reg, cascade=cascade: R.zoo_pc(sa, orm, reg, cascade=cascade)])
+        rig = R.Rig(ctx, [lambda sa, orm, reg, cascade=cascade: zoo_pc_ext(sa, orm, reg, cascade)])
         gc.collect()
         gc.freeze()   # only speeds up the many gc.collect() calls below
         try:
@@ -551,11 +731,13 @@ def run(ctx):
                     continue
                 autoflush = rng.random() < 0.5
                 eoc = rng.random() < 0.7
+                autobegin = rng.random() < 0.6
                 for placement, where in placements(prog, rng):
-                    app = run_program(ctx, rig, prog, placement, where, variant, autoflush, eoc)
+                    app = run_program(ctx, rig, prog, placement, where, variant, autoflush, eoc, autobegin)
                     if sampled < 3 and app.lost_dirty and placement == "all":
                         ctx.sample({"variant": variant, "program": app.program, "placement": placement})
                         sampled += 1
         finally:
             rig.close()
             gc.unfreeze()
+    ctx.count("server_generated_expired", _STATS["sv_expired_in_flush"])
